@@ -20,7 +20,7 @@ let string_of_bytes (l : BinNums.coq_N list) : string =
 
 let () = run (fun case impl ->
   match split_ws case with
-  | "S" :: addr :: toks ->
+  | ("S" | "S1" | "S2") :: addr :: toks ->     (* S1 / S2: the label gets its value after the statement / after another region was selected *)
       let addr_n = n_of_hex addr in
       let (i, _) = parse_instr toks in
       let mtext = DisplayModel.display i addr_n in
